@@ -38,13 +38,17 @@ package licenseclassifier
 //@   modifies nothing
 //@   props C16 C14
 //@
+//@ // C16 (canonical name): the only change made to a match's Name is the removal
+//@ // of the ".header" suffix of its key (suffix, not character set)
 //@ func (*License).NearestMatch
+//@   access stringclassifier.Match.Name write requires value == trimSuffix(owner.Name, ".header")
 //@   requires c != nil && readyC(c.c)
 //@   ensures result == nil || fresh(result)
 //@   modifies nothing
 //@   props C14 C16
 //@
 //@ func (*License).MultipleMatch
+//@   access stringclassifier.Match.Name write requires value == trimSuffix(owner.Name, ".header")
 //@   requires c != nil && readyC(c.c)
 //@   ensures forall i int :: 0 <= i && i < len(result) ==> result[i] != nil && fresh(result[i]) && result[i].Confidence >= c.Threshold
 //@   ensures forall i int :: 0 <= i && i < len(result) ==> okMatchP(result[i], normOf(c.c, normText(contents)))
